@@ -216,7 +216,7 @@ def r11_2(prog: Program, chk: Check) -> None:
     chk.ob(
         "R11.2",
         "node_visitor::BaseNodeVisitor.get_unused_ignores::definition",
-        "IGNORE_COMMENT in line and i not in self.used_ignores" in t and "enumerate(self._lines())" in t,
+        "IGNORE_COMMENT in " in t and "i not in self.used_ignores" in t and "enumerate(self._lines())" in t,
         prog.site("node_visitor", gu),
         "unused ignores must be exactly the lines containing the comment whose index is not in used_ignores",
     )
@@ -227,7 +227,8 @@ def r11_3(prog: Program, chk: Check) -> None:
     fn = prog.func("node_visitor", "BaseNodeVisitor.show_error")
     n = 0
     for s in walk_no_nested(fn):
-        if isinstance(s, ast.Subscript) and norm(s.value) == "lines" and isinstance(s.slice, ast.BinOp) and isinstance(s.slice.op, ast.Sub):
+        # any per-line table (the lines, their comments) indexed relative to the diagnostic's line
+        if isinstance(s, ast.Subscript) and isinstance(s.value, ast.Name) and isinstance(s.slice, ast.BinOp) and isinstance(s.slice.op, ast.Sub):
             if norm(s.slice.left) != "lineno" or not isinstance(s.slice.right, ast.Constant):
                 continue
             k = s.slice.right.value
@@ -246,10 +247,10 @@ def r11_3(prog: Program, chk: Check) -> None:
                                 ok = True
             chk.ob(
                 "R11.3",
-                f"node_visitor::BaseNodeVisitor.show_error::lines[lineno-{k}]",
+                f"node_visitor::BaseNodeVisitor.show_error::{norm(s.value)}[lineno-{k}]",
                 ok,
                 prog.site("node_visitor", s),
-                f"lines[lineno - {k}] without a `lineno >= {k}` guard: for lineno < {k} the index is negative and wraps to the end of the file",
+                f"{norm(s.value)}[lineno - {k}] without a `lineno >= {k}` guard: for lineno < {k} the index is negative and wraps to the end of the file",
             )
     if n < 2:
         raise AnchorError("show_error: neighbour-line subscripts not found")
@@ -462,7 +463,7 @@ def _filter_chunk(args):
                 want_rep, want_used = flt.reference(lines, diags, en)
                 note("reported = enabled and not suppressed (documented ignore forms)", rep != want_rep, {**d, "reported": rep, "documented": want_rep})
                 note("used ignore comments = comments that suppressed something", used != want_used, {**d, "used": sorted(used), "documented": sorted(want_used)})
-                want_unused = [i for i, l in enumerate(lines) if flt.IC in l and i not in want_used]
+                want_unused = [i for i, l in enumerate(lines) if flt.IC in flt.comment_of(l) and i not in want_used]
                 note("unused ignore comments = the other ignore comments", sorted(unused) != want_unused, {**d, "unused": sorted(unused), "documented": want_unused})
                 used_by_enabled.append(frozenset(used))
             note("ignore accounting does not depend on which codes are enabled", len(set(used_by_enabled)) > 1, {"file": list(kinds), "diagnostics": list(diags), "used_per_enabled_set": [sorted(u) for u in used_by_enabled]})
@@ -477,7 +478,7 @@ def r11_7(prog: Program, chk: Check) -> None:
     chk.rule(
         "R11.7",
         "the diagnostic filter as a finite model: show_error, has_file_level_ignore, _lines, is_enabled and get_unused_ignores are interpreted from their AST on every file of up to "
-        f"{max_lines} lines drawn from 13 line kinds (code, trailing bare / [A] / [B] / two comments, own-line bare / [A] / indented, plain comment, blank, a form feed - white space for the parser, not a line end), every sequence of up to 2 raw "
+        f"{max_lines} lines drawn from 15 line kinds (code, trailing bare / [A] / [B] / two comments, own-line bare / [A] / indented, plain comment, blank, a form feed - white space for the parser, not a line end -, the ignore text inside a string literal - not a comment), every sequence of up to 2 raw "
         "diagnostics (line x code, duplicates included) and every set of enabled codes: the reported diagnostics are exactly the enabled ones not suppressed by a documented ignore form, "
         "the used / unused ignore comments are those that did / did not suppress something, and neither depends on which codes are enabled",
         floor=5,
